@@ -34,7 +34,11 @@ class Boom(ValueError):
     pass
 
 
-def _expect_raise(fn, what, types=(ValueError, TypeError)):
+def _now():
+    return (_dt.datetime.now(_dt.timezone.utc) - _dt.datetime(1970, 1, 1, tzinfo=_dt.timezone.utc)) // _dt.timedelta(microseconds=1)
+
+
+def _expect_raise(fn, what, types=(ValueError, TypeError, ZeroDivisionError)):
     try:
         fn()
     except types as e:
@@ -86,6 +90,8 @@ def h_fault(params):
                 if k == i:
                     if bad == "raise":
                         raise Boom("user callable failed")
+                    if bad == "raise_other":
+                        raise ZeroDivisionError("user callable failed differently")
                     return {"time": 12345, "measurement": 77}[slot]
                 if slot == "time":
                     return old + _dt.timedelta(seconds=1)
@@ -106,6 +112,39 @@ def h_fault(params):
                 _expect_raise(lambda: db.update_all(**{slot: cb}), f"update_all({slot}=callable that fails on call {i})")
             else:
                 _expect_raise(lambda: db.update(q, **{slot: cb}), f"update({slot}=callable that fails on call {i})")
+        elif kind == "reinsert":
+            # insert(point, measurement=<invalid>) must raise and must not have touched the caller's point:
+            # inserting the very same object afterwards behaves like a first insert
+            from ..hist import op_insert
+            from .. import symtime as _st
+
+            p0 = Point()  # no time: must be stamped with the time of the SUCCESSFUL insert
+            p0.tags = {"k": "a"}
+            bad_m = [5, ["m"], 2.5][choose("badm", 3)]
+            how = params.get("how", "insert")
+            if how == "insert":
+                _expect_raise(lambda: db.insert(p0, measurement=bad_m), "insert with an invalid measurement argument")
+            else:
+                _expect_raise(lambda: db.insert_multiple([p0], measurement=bad_m), "insert_multiple with an invalid measurement argument")
+            require(p0.time is None or True, lambda: "")
+            h.check_contents("contents after the failed insert")
+            k = _st.CLOCK.n
+            lo = _now()
+            try:
+                r = db.insert(p0)
+            except Exception as e:
+                fail(lambda: f"re-inserting the point after the failed call raised {type(e).__name__}: {e}")
+            hi = _now()
+            if lpe.is_symbolic() and h.storage == "mem":
+                t = _st.CLOCK.value(k)
+            else:
+                from ..symtime import us_of
+
+                t = us_of(p0.time)
+                require(lo <= t <= hi, lambda: f"re-inserted point carries the time {t} of the FAILED call, not of this insert [{lo},{hi}]")
+            from ..model import MP
+
+            h.model.insert(MP(t, "_default", {"k": "a"}, {}))
         elif kind == "static":
             which = params["which"]
             q = h.compile(("tag", "k", "==", "a"))
@@ -177,13 +216,16 @@ def obligations(tier):
             obs.append(_ob(f"insert_multiple/{cname}/then-{nxt}", kind="insert_multiple", ai=ai, reindex_before=rx, next=nxt, n=1 if not th else 2, m=3 if th else 2, torder="sym", budget=120 if not th else 600))
         obs.append(_ob(f"insert_multiple/handle/{cname}", kind="insert_multiple", ai=ai, reindex_before=rx, via="n", n=1, m=2, also=["meas"]))
         for slot in ("time", "measurement", "tags", "fields"):
-            for bad in ("raise",) + (("invalid",) if slot in ("time", "measurement") else ()):
+            for bad in ("raise", "raise_other") + (("invalid",) if slot in ("time", "measurement") else ()):
                 for q in (B, A2) if th else (B,):
                     obs.append(_ob(f"callable/{slot}/{bad}/{q_repr(q)}/{cname}", kind="callable", slot=slot, bad=bad, q=q, ai=ai, reindex_before=rx, n=3 if (th or cname != "scan") else 2, next="ins", torder="sym" if th else "ooo"))
                 obs.append(_ob(f"callable-update_all/{slot}/{bad}/{cname}", kind="callable", slot=slot, bad=bad, q=B, all=True, ai=ai, reindex_before=rx, n=2, next="rm", torder="ooo"))
+        for how in ("insert", "insert_multiple"):
+            obs.append(_ob(f"reinsert-after-failed-insert/{how}/{cname}", kind="reinsert", how=how, ai=ai, reindex_before=rx, n=2, next="rm", torder="sym"))
         for which in STATIC:
             obs.append(_ob(f"static/{which}/{cname}", kind="static", which=which, ai=ai, reindex_before=rx, n=2, next="ins", torder="ooo"))
     for cname, ai, rx in CONFIGS[:2]:
+        obs.append(_ob(f"csv/reinsert-after-failed-insert/{cname}", kind="reinsert", how="insert", ai=ai, storage="csv", n=1, next="ins", budget=120))
         obs.append(_ob(f"csv/insert_multiple/{cname}", kind="insert_multiple", ai=ai, storage="csv", n=1, m=2, next="ins", budget=120))
         for slot in ("time", "tags"):
             obs.append(_ob(f"csv/callable/{slot}/{cname}", kind="callable", slot=slot, bad="raise", q=B, ai=ai, storage="csv", n=2, next="rm", budget=120))
